@@ -400,3 +400,14 @@ func SwapCase(s string) (string, bool) {
 	}
 	return s, false
 }
+
+// FloatFromDecimal returns the double nearest to d1.d2...dn x 10^exp (digits ASCII). In the symbolic run the result
+// carries the digits as its shortest round-trip representation, which holds natively for n <= 15 in the normal range.
+func FloatFromDecimal(digits []byte, exp int) float64 {
+	s := string(digits[:1])
+	if len(digits) > 1 {
+		s += "." + string(digits[1:])
+	}
+	f, _ := strconv.ParseFloat(s+"e"+strconv.Itoa(exp), 64)
+	return f
+}
